@@ -3,6 +3,7 @@ package main
 import (
 	"fmt"
 	"strings"
+	"unicode/utf8"
 
 	"github.com/veraison/eat"
 	psa "github.com/veraison/psatoken"
@@ -280,6 +281,20 @@ func runC05(r *Run, rng *Rng, thorough bool) {
 			r.Case(class+"/"+entryNames[e], false, "decv "+hx(buf), decv(buf).line)
 		case 7:
 			r.Case(class+"/"+entryNames[e], false, "pop two "+hx(buf), res)
+		case 8:
+			// the JSON populate helper against the tree-level model, when the text is a JSON document
+			if jt, perr := parseJSONText(buf); perr == nil && utf8.Valid(buf) {
+				out := res
+				if res == "ok" {
+					d := &ShTwo{}
+					if encoding.PopulateStructFromJSON(append([]byte{}, buf...), d) == nil {
+						out = "ok " + flatVals(d)
+					}
+				}
+				r.Case(class+"/"+entryNames[e], false, "popj two "+jt.Proto(), out)
+			} else {
+				r.ImplOnly(class+"/"+entryNames[e], false, op)
+			}
 		case 11:
 			out := res
 			if res == "ok" {
